@@ -4,7 +4,8 @@ From Coq Require Import Reals List Bool Arith Sorting.Sorted.
 From Celer Require Import Base.Num Base.NumR Base.NumF Base.Vec3 C12.Solver C12.Surfaces C12.Transforms
   C03.LogicWalk C03.NavModel C03.LogicWalkProofs C03.QuadricSign C03.NavProofs C03.NavWitness
   C03.UnitWalk C03.UnitAbs C03.UnitWalkProofs C03.UnitBridge C03.UnitWitness
-  C03.Indexer C03.IndexerProofs C03.RectArray C03.RectArrayProofs C03.BIH C03.BIHProofs.
+  C03.Indexer C03.IndexerProofs C03.RectArray C03.RectArrayProofs C03.BIH C03.BIHProofs
+  C03.LevelsProofs C03.NavLevelsProofs C03.NavLevelsWitness C03.UnitWalkBg C03.UnitWalkBgProofs C03.UnitBgWitness.
 Import ListNotations.
 Local Open Scope R_scope.
 
@@ -121,6 +122,29 @@ Theorem C03_unit_trace_refines_locate :
   = spec_trace (spec_locate vols bg S0 xs) (Some cur) (map snd xs).
 Proof. exact nav_trace_refines_locate. Qed.
 Print Assumptions C03_unit_trace_refines_locate.
+
+(** the same with a BACKGROUND volume: when the current volume is implicit the tracker uses
+    background_intersect (first crossing at which a neighbour of the crossed surface contains
+    the bumped point); partition hypothesis: in every sense region along the ray AT MOST one
+    volume contains the track (none = background), implicit volumes never do *)
+Theorem C03_unit_trace_bg_refines_locate :
+  forall (vols : list avol) (bg : option nat),
+  (forall b, bg = Some b -> (b < length vols)%nat /\ av_implicit (a_vol vols b) = true) ->
+  forall (S0 : list bool) (xs : list (nat * R)) (oracle_at oracle_bump : R -> nat -> bool),
+  StronglySorted (fun a b => snd a < snd b) xs ->
+  (forall s d, In (s, d) xs -> (s < length S0)%nat) ->
+  (forall i, NoDup (av_faces (a_vol vols i))) ->
+  (forall s d, In (s, d) xs -> forall x, x <> s -> oracle_at d x = true_sense S0 xs d x) ->
+  (forall s d, In (s, d) xs -> forall x, oracle_bump d x = true_sense S0 xs d x) ->
+  forall (t0 : R) (cur : nat),
+  (forall s d, In (s, d) xs -> t0 < d) ->
+  (forall x, oracle_at t0 x = nth x S0 false) ->
+  spec_locate vols bg S0 xs t0 = Some cur ->
+  all_good' vols S0 xs ->
+  nav_trace_bg (S (length xs)) vols bg oracle_at oracle_bump xs t0 cur None
+  = spec_trace (spec_locate vols bg S0 xs) (Some cur) (map snd xs).
+Proof. exact nav_trace_bg_refines_locate. Qed.
+Print Assumptions C03_unit_trace_bg_refines_locate.
 
 (** the executable model's SimpleUnitTracker::cross_boundary / initialize ARE the abstract
     functions above (any numeric instance) *)
@@ -381,6 +405,77 @@ Theorem C03_reentrant_protocol :
   /\ st_reentrant (cross_boundary g st) = false.
 Proof. exact reentrant_protocol. Qed.
 Print Assumptions C03_reentrant_protocol.
+
+(** ** composition over nesting levels *)
+
+(** levels_positions_consistent: the level stack is a [chain] -- every level's universe,
+    local position and local direction are the daughter universe / transform of the volume
+    the level above is in, applied to that level's position and direction.  Established by
+    initialisation and preserved by every operation (cross_boundary: for a valid surface
+    level, which the search + move_to_boundary guarantee: [find_next_level_valid]) *)
+Theorem C03_levels_positions_consistent :
+  forall g : geometry R,
+  (forall pos dir, chain g (st_levels (initialize g pos dir)))
+  /\ (forall tol st maxd, chain g (st_levels st) -> chain g (st_levels (fst (find_next_step tol g st maxd))))
+  /\ (forall st d, chain g (st_levels st) -> chain g (st_levels (move_internal st d)))
+  /\ (forall st, chain g (st_levels st) -> chain g (st_levels (move_to_boundary st)))
+  /\ (forall st, chain g (st_levels st) ->
+        (forall sl s b, st_surf st = Some (sl, s, b) -> (sl < length (st_levels st))%nat) ->
+        chain g (st_levels (cross_boundary g st))).
+Proof. exact levels_positions_consistent. Qed.
+Print Assumptions C03_levels_positions_consistent.
+
+Theorem C03_levels_positions_consistent_redirect :
+  forall (g : geometry R) (st : state R),
+  chain g (st_levels st) ->
+  (forall u, chain g (st_levels (set_dir g st u)))
+  /\ (forall p, chain g (st_levels (move_internal_pos g st p))).
+Proof. exact levels_positions_consistent_redirect. Qed.
+Print Assumptions C03_levels_positions_consistent_redirect.
+
+(** one crossing at any nesting level: the stack after cross_boundary (levels above the
+    surface level untouched, new volume at the surface level, daughters re-initialised) is
+    the stack [locate] gives at a point [p'] just past the crossing *)
+Theorem C03_nav_cross_refines_locate :
+  forall (g : geometry R) (st : state R) (sl s : nat) (sense : bool) (p' : vec3 R) (vol : nat),
+  st_reentrant st = false -> st_surf st = Some (sl, s, sense) ->
+  (sl < length (st_levels st))%nat -> (S sl <= max_depth)%nat ->
+  chain g (st_levels st) -> ls_univ (get_level st 0) = 0%nat ->
+  let pre := firstn sl (st_levels st) in
+  let b := get_level st sl in
+  let u := get_unit g (ls_univ b) in
+  let q := img_after g pre p' in
+  tops_ok g pre p' ->
+  unit_cross u (ls_pos b) (ls_vol b) (s, negb sense) = Some vol ->
+  forall (Hinit : unit_initialize u q = Some vol)
+         (Hbelow : match v_daughter (get_vol u vol) with
+                   | None => True
+                   | Some (duid, x) =>
+                       exists rest, stackf (max_depth - S sl) g duid (x_down x q) = (rest, false)
+                                    /\ stackf max_depth g duid (x_down x (ls_pos b)) = (rest, false)
+                   end),
+  locate g p' = Some (map stk (st_levels (cross_boundary g st)))
+  /\ st_failed (cross_boundary g st) = st_failed st
+  /\ st_surf (cross_boundary g st) = Some (sl, s, negb sense).
+Proof. exact nav_cross_refines_locate. Qed.
+Print Assumptions C03_nav_cross_refines_locate.
+
+(** the multi-level loop find_next_step; move_to_boundary; cross_boundary from any state that
+    satisfies the (self-carrying) invariant, e.g. a fresh initialisation: for every number of
+    crossings the stacks reported after the crossings are the stacks [locate] gives just past
+    them.  PARTIAL: the per-crossing hypotheses [crossing_ok] (parent volumes still contain
+    the point = daughters inside parents; unit-level cross = unit-level locate, which is
+    C03_unit_cross_is_locate_past; location below the surface level stable across the crossing
+    point = no inter-level tie; nesting depth < 8) are assumed for the navigator's own states
+    instead of being derived from a global "valid geometry + non-tangent ray" predicate, and
+    the crossing DISTANCES are not part of this statement (per step they are the minimum over
+    levels of the unit-level exits: C03_min_over_levels_correct, C03_complex_exit_is_first_exit) *)
+Theorem C03_nav_refines_locate_multilevel_partial :
+  forall (tol : tolerance R) (g : geometry R) (ps : list (vec3 R)) (st : state R),
+  nav_inv g st -> run_ok tol g st ps ->
+  map (locate g) ps = map Some (run_stacks tol g st (length ps)).
+Proof. exact nav_refines_locate_multilevel_partial. Qed.
+Print Assumptions C03_nav_refines_locate_multilevel_partial.
 
 (** ** witnesses on the float instance *)
 
